@@ -229,3 +229,29 @@ M('C08', 'ds-errors-max-over-stats', DS, "    new_errors_flat = metrics_flat.inv
   "    new_errors_flat = metrics_flat.inverse_pth_root_errors\n    worst = jnp.max(jnp.stack(new_errors_flat))\n    for p, shape, prev_p, error in zip(preconditioners_flat, original_shapes,\n                                       prev_preconditioners, new_errors_flat):\n      new_preconditioners_flat.append(\n          _select_preconditioner(worst, p[:shape[0], :shape[1]], prev_p))\n\n    assert len(states) == len(num_statistics_per_state)\n    assert len(new_preconditioners_flat) == num_statistics\n    assert len(new_errors_flat) == len(packed_statistics)")
 M(['C08', 'C01'], 'eigh-mask-not-flipped', DS, "    e *= jnp.flip(ix)\n  mm = functools.partial(jnp.matmul, precision=precision)", "    e *= ix\n  mm = functools.partial(jnp.matmul, precision=precision)")
 TW('C08', 'twin-cutoff-amax', TS, "  mask = w <= eps * jnp.max(w, axis=-1, keepdims=True)", "  top = jnp.max(w, axis=1, keepdims=True)\n  mask = w <= eps * top")
+
+# ------------------------------------------------------------------ C09
+M(['C09', 'C15'], 'F8-tail-sqrt-decay', SK, "    tail = axis_state.tail * cov_decay + cutoff**2\n", "    tail = axis_state.tail * decay + cutoff**2\n")
+M('C09', 'sk-undeflated-sqrt-decay', SK, "        jnp.square(jnp.maximum(top_eigs, 0.0)) + axis_state.tail * cov_decay\n", "        jnp.square(jnp.maximum(top_eigs, 0.0)) + axis_state.tail * decay\n")
+M('C09', 'sk-ekfac-sqrt-decay', SK, "    undeflated_ekfac = jnp.square(jnp.maximum(s, 0.0)) + prev_tail * cov_decay", "    undeflated_ekfac = jnp.square(jnp.maximum(s, 0.0)) + prev_tail * decay")
+M('C09', 'sk-sketch-full-decay', SK, "  updated = jnp.concatenate([sketch_dk * decay, g_dm], axis=1)", "  updated = jnp.concatenate([sketch_dk * cov_decay, g_dm], axis=1)")
+M('C09', 'sk-cutoff-index', SK, "  cutoff = jnp.maximum(s[k], 0.0) if k < len(s) else 0.0", "  cutoff = jnp.maximum(s[k - 1], 0.0) if k < len(s) else 0.0")
+M('C09', 'sk-alpha', SK, "  alpha = jnp.asarray(-1.0 / (2 * update.ndim), dtype=jnp.float32)", "  alpha = jnp.asarray(-1.0 / update.ndim, dtype=jnp.float32)")
+M('C09', 'sk-unfold-reshape-only', SK, "  g_dm = update.transpose([dim] + all_but_dim).reshape(d, -1)", "  g_dm = update.reshape(d, -1) if dim != update.ndim - 1 else update.reshape(-1, d).T")
+M('C09', 'sk-tail-missing-cutoff', SK, "    tail = axis_state.tail * cov_decay + cutoff**2\n", "    tail = axis_state.tail * cov_decay + cutoff\n")
+M('C09', 'sk-inv-tail-old', SK, "  inv_tail = jnp.where(tail > 0, (tail + eps) ** alpha, 0.0)", "  inv_tail = jnp.where(tail > 0, (axis_state.tail + eps) ** alpha, 0.0)")
+M('C09', 'ds-tail-sqrt-decay', DS, "  tail = tail * decay\n  new_tail = tail + rho_t", "  tail = tail * jnp.sqrt(decay)\n  new_tail = tail + rho_t")
+M('C09', 'ds-upshift-undiscounted-tail', DS, "  tail = tail * decay\n  new_tail = tail + rho_t", "  new_tail = tail * decay + rho_t")
+M('C09', 'ds-cutoff-index', DS, "  cutoff = s[rank]\n", "  cutoff = s[rank - 1]\n")
+M('C09', 'ds-sketch-no-sqrt', DS, "          jnp.sqrt(decay) * weighted_sketch_dr,", "          decay * weighted_sketch_dr,")
+M('C09', 'ds-no-clamp', DS, "  deflated_eigs = jnp.where(deflated_eigs <= 0, 0.0, deflated_eigs)\n", "")
+M('C09', 'ds-const-from-old-tail', DS, "  new_const = jnp.where(new_tail <= 0, 0.0, new_tail**alpha)", "  new_const = jnp.where(new_tail <= 0, 0.0, tail**alpha)")
+M('C09', 'ds-alpha-half', DS, "  alpha = jnp.asarray(-1.0 / p)\n  new_const", "  alpha = jnp.asarray(-0.5 / p)\n  new_const")
+M('C09', 'ds-weighted-sketch-no-sqrt-eig', DS, "  weighted_sketch_dr = sketch_dr * jnp.sqrt(fwd_eigvals_r)", "  weighted_sketch_dr = sketch_dr * fwd_eigvals_r")
+M('C09', 'ds-fd-stat-no-moveaxis', DS, "  x = jnp.reshape(jnp.moveaxis(g, axis, 0), (g.shape[axis], -1))", "  x = jnp.reshape(g, (g.shape[axis], -1))")
+M(['C09', 'C16'], 'oco-alpha-rho-linear', OCO, "  state['alpha'] += alpha_update_factor * rho**2", "  state['alpha'] += alpha_update_factor * rho")
+M(['C09', 'C16'], 'oco-rho-first', OCO, "  rho = s[-1]\n", "  rho = s[0]\n")
+M(['C09', 'C16'], 'oco-row-zero', OCO, "  B = B.at[-1].set(grad_input)", "  B = B.at[0].set(grad_input)")
+M(['C09', 'C16'], 'oco-e-not-sqrt', OCO, "  state['e'] = jnp.sqrt(s)\n", "  state['e'] = s\n")
+TW('C09', 'twin-ds-deflate-expanded', DS, "  deflated_eigs = (top_eigs - cutoff) * (top_eigs + cutoff)", "  deflated_eigs = jnp.square(top_eigs) - jnp.square(cutoff)")
+TW('C09', 'twin-sk-tail-commuted', SK, "    tail = axis_state.tail * cov_decay + cutoff**2\n", "    tail = jnp.square(cutoff) + cov_decay * axis_state.tail\n")
